@@ -46,6 +46,20 @@ CHECKS["C16"] = dict(
     design_ref="DESIGN.md section 3 / C16",
 )
 
+CHECKS["C12"] = dict(
+    category="other",
+    text=("Clause-level. Decided: (1) the LM-OTS table (type, w, p, ls) extracted from the parameter constructor's call sites - arguments "
+          "evaluated by interval analysis with each of the six hash output sizes as a singleton - equals RFC 8554 Appendix B recomputed by "
+          "the checker; (2) on the source's own numbers the checksum fits 16 bits and every checksum bit lands in a signed digit; (3) signer, "
+          "verifier and key generation use the chain routine in the roles 0..digit / digit..2^w-1 / 0..2^w-1, digits come from the one digit "
+          "function applied to the checksum-appended digest with the chain index and w, loops run over 0..p, the checksum subtracts each digit "
+          "from a w-only maximum over 8n/w digits and is shifted by ls; (4) the two sibling digit functions have identical index/shift/mask "
+          "expression DAGs. NOT decided: that the digit function computes the RFC digit for all inputs (numeric identity)."),
+    note="Known finding F7 (ls for (24,1),(16,1),(16,2)) is listed in known-findings.txt by exact key. Trusts the Appendix-B transcription in rules/paramtable.py.",
+    technique="reference-table comparison of IA-evaluated constants; data-dependence role rules on MIR expression DAGs; sibling comparison",
+    design_ref="DESIGN.md section 3 / C12",
+)
+
 NOT_APPLICABLE = {
     "C01": ("Round-trip completeness (sign then verify succeeds) is equality of two computations over runtime values "
             "(message, seed, counter, 6x4x5^L parameter shapes); no dataflow/typestate fact bounds it. Its structural "
